@@ -1,6 +1,9 @@
 // C06, part "misc": etl/numeric.hpp range algorithms, the iterator helpers the algorithms are built on
 // (advance, next, prev, distance) and reverse_iterator's own operators.
 //   accumulate reduce inner_product transform_reduce partial_sum adjacent_difference iota
+//   partial_sum / adjacent_difference in place (d_first == first) on every sub-range of the buffer
+//   init types wider than the element type (long long, double over int) with minus / non-associative / concatenating
+//   operations for the left folds and plus / max for the generalized sums (jobs numeric-wide, numeric2-wide)
 //   advance next prev distance, reverse_iterator (+, -, [], +=, -=, ++, --, ==, !=, <, <=, >, >=, difference, base)
 #include "c06_common.hpp"
 
@@ -101,6 +104,28 @@ void numeric_one(Ctx& c, ISeq const& a)
         writer("adjacent_difference(first,last,d_first,op)",
             [](auto lib, auto f, auto l, auto d) { return C06_ALG(adjacent_difference)(lib, f, l, d, Sub2{}); });
     }
+    // in place ("result may be equal to first"), on every sub-range [i,j) of the buffer
+    if constexpr (F::rank >= 1 && std::is_same_v<F, G>) {
+        auto inplace = [&](char const* subject, auto call) {
+            if (!c.want(subject)) { return; }
+            for (std::size_t i = 0; i <= n; ++i) {
+                for (std::size_t j = i; j <= n; ++j) {
+                    c.run(subject, nt, [&](auto lib, Obs& o) {
+                        Buf<int> A(mem<F>(a));
+                        auto it = call(lib, F::at(lib, A, i), F::at(lib, A, j), F::at(lib, A, i));
+                        o.num(F::off(A, it));
+                        o.buf(A);
+                    }, [&] { return len_class(j - i); }, [&] { return cat(F::name, " a=", ishow(a), " first=", i, " last=", j, " d_first=first"); });
+                }
+            }
+        };
+        inplace("partial_sum(first,last,d_first) in place", [](auto lib, auto f, auto l, auto d) { return C06_ALG(partial_sum)(lib, f, l, d); });
+        inplace("partial_sum(first,last,d_first,op) in place", [](auto lib, auto f, auto l, auto d) { return C06_ALG(partial_sum)(lib, f, l, d, Mix{}); });
+        inplace("adjacent_difference(first,last,d_first) in place",
+            [](auto lib, auto f, auto l, auto d) { return C06_ALG(adjacent_difference)(lib, f, l, d); });
+        inplace("adjacent_difference(first,last,d_first,op) in place",
+            [](auto lib, auto f, auto l, auto d) { return C06_ALG(adjacent_difference)(lib, f, l, d, Sub2{}); });
+    }
     if constexpr (F::rank >= 1) {
         for (int start : {-2, 5}) {
             if (c.want("iota(first,last,value)")) {
@@ -162,6 +187,196 @@ void numeric_two(Ctx& c, ISeq const& a, ISeq const& b)
             }, cls, kase);
         }
     }
+}
+
+// ------------------------------------------------------------------------------------------
+// init type different from the element type (long long / double over int elements), non-commutative and
+// non-associative operations for the strict left folds
+//   * accumulate / inner_product are left folds in the init type: every operation is specified, so minus, the
+//     non-associative Mix and a digit concatenation (acc * 10 + x)
+//     are compared; the init values 5'000'000'007 and 0.5 do not survive a narrowing to the element type
+//   * reduce / transform_reduce are a GENERALIZED_SUM: only associative + commutative operations have a specified
+//     result, and every operand combination must be valid: plus (pairs of elements stay inside int, the total
+//     does not: alphabet {-1, 2, 1'000'000'000}), and max; doubles stay exactly representable (no rounding, so
+//     the grouping cannot show)
+// ------------------------------------------------------------------------------------------
+struct MinusW {
+    template <typename A, typename B>
+    auto operator()(A x, B y) const
+    {
+        return x - y;
+    }
+};
+struct MixW {
+    template <typename A, typename B>
+    auto operator()(A x, B y) const
+    {
+        return x * 3 - y;
+    }
+};
+struct ConcatW {
+    template <typename A, typename B>
+    A operator()(A x, B y) const
+    {
+        return x * 10 + y;
+    }
+};
+struct PlusW {
+    template <typename A, typename B>
+    auto operator()(A x, B y) const
+    {
+        return x + y;
+    }
+};
+struct MaxW {
+    template <typename A, typename B>
+    auto operator()(A x, B y) const
+    {
+        using C = std::common_type_t<A, B>;
+        return C(x) < C(y) ? C(y) : C(x);
+    }
+};
+struct TimesHalf { // int -> double: the transformed value is not an int
+    double operator()(int x) const { return x * 0.5; }
+};
+struct WideSq { // int -> long long: the transformed value leaves the int range (8 x 10^9 x 1000000007 < 2^63)
+    long long operator()(int x) const { return static_cast<long long>(x) * 1000000007LL; }
+};
+struct WideMul {
+    long long operator()(int x, int y) const { return static_cast<long long>(x) * y; }
+};
+
+template <typename T>
+void put(Obs& o, T v)
+{
+    if constexpr (std::is_floating_point_v<T>) {
+        o.dbl(static_cast<double>(v));
+    } else {
+        o.wide(static_cast<long long>(v));
+    }
+}
+template <typename T>
+std::string tname()
+{
+    return std::is_floating_point_v<T> ? "double" : "long_long";
+}
+
+template <typename F, typename T>
+void numeric_wide_one(Ctx& c, ISeq const& a, bool big)
+{
+    auto const n  = a.size();
+    bool const nt = n >= 2;
+    auto cls      = [&] { return cat(len_class(n), "+init_", tname<T>()); };
+    T const inits[2] = {std::is_floating_point_v<T> ? T(0.5) : T(5000000007LL), T(-3)};
+    for (T init : inits) {
+        auto kase = [&] { return cat(F::name, " a=", ishow(a), " init=(", tname<T>(), ")", init); };
+#define C06_WIDE(SUBJ, ...)                                                                                                     \
+    if (c.want(SUBJ)) {                                                                                                         \
+        c.run(SUBJ, nt, [&](auto lib, Obs& o) {                                                                                 \
+            Buf<int> A(mem<F>(a));                                                                                              \
+            auto f = F::at(lib, A, 0);                                                                                          \
+            auto l = F::at(lib, A, n);                                                                                          \
+            auto res = __VA_ARGS__;                                                                                             \
+            static_assert(std::is_same_v<decltype(res), T>);                                                                    \
+            put(o, res);                                                                                                        \
+            o.buf(A);                                                                                                           \
+        }, cls, kase);                                                                                                          \
+    }
+        C06_WIDE("accumulate(first,last,init)", C06_ALG(accumulate)(lib, f, l, init))
+        C06_WIDE("reduce(first,last,init)", C06_ALG(reduce)(lib, f, l, init))
+        C06_WIDE("reduce(first,last,init,op)", C06_ALG(reduce)(lib, f, l, init, MaxW{}))
+        C06_WIDE("reduce(first,last,init,op)", C06_ALG(reduce)(lib, f, l, init, PlusW{}))
+        if constexpr (std::is_floating_point_v<T>) {
+            C06_WIDE("transform_reduce(first,last,init,reduce,transform)", C06_ALG(transform_reduce)(lib, f, l, init, PlusW{}, TimesHalf{}))
+        } else {
+            C06_WIDE("transform_reduce(first,last,init,reduce,transform)", C06_ALG(transform_reduce)(lib, f, l, init, PlusW{}, WideSq{}))
+        }
+        if (!big) { // the products/differences below must stay inside the init type for every prefix
+            C06_WIDE("accumulate(first,last,init,op)", C06_ALG(accumulate)(lib, f, l, init, MinusW{}))
+            C06_WIDE("accumulate(first,last,init,op)", C06_ALG(accumulate)(lib, f, l, init, MixW{}))
+            C06_WIDE("accumulate(first,last,init,op)", C06_ALG(accumulate)(lib, f, l, init, ConcatW{}))
+        }
+#undef C06_WIDE
+    }
+}
+
+template <typename F1, typename F2, typename T>
+void numeric_wide_two(Ctx& c, ISeq const& a, ISeq const& b)
+{
+    auto const n = a.size();
+    auto const m = b.size();
+    if (m < n) { return; }
+    bool const nt = n >= 2;
+    auto cls      = [&] { return cat(len_class(n), m > n ? "+second_longer" : "", "+init_", tname<T>()); };
+    T const inits[2] = {std::is_floating_point_v<T> ? T(0.5) : T(5000000007LL), T(-3)};
+    for (T init : inits) {
+        auto kase = [&] { return cat(F1::name, "/", F2::name, " a=", ishow(a), " b=", ishow(b), " init=(", tname<T>(), ")", init); };
+#define C06_WIDE2(SUBJ, ...)                                                                                                    \
+    if (c.want(SUBJ)) {                                                                                                         \
+        c.run(SUBJ, nt, [&](auto lib, Obs& o) {                                                                                 \
+            Buf<int> A(mem<F1>(a));                                                                                             \
+            Buf<int> B(mem<F2>(b));                                                                                             \
+            auto f  = F1::at(lib, A, 0);                                                                                        \
+            auto l  = F1::at(lib, A, n);                                                                                        \
+            auto f2 = F2::at(lib, B, 0);                                                                                        \
+            auto res = __VA_ARGS__;                                                                                             \
+            static_assert(std::is_same_v<decltype(res), T>);                                                                    \
+            put(o, res);                                                                                                        \
+            o.buf(A);                                                                                                           \
+            o.buf(B);                                                                                                           \
+        }, cls, kase);                                                                                                          \
+    }
+        C06_WIDE2("inner_product(first1,last1,first2,init)", C06_ALG(inner_product)(lib, f, l, f2, init))
+        C06_WIDE2("inner_product(first1,last1,first2,init,op1,op2)", C06_ALG(inner_product)(lib, f, l, f2, init, MinusW{}, MixW{}))
+        C06_WIDE2("inner_product(first1,last1,first2,init,op1,op2)", C06_ALG(inner_product)(lib, f, l, f2, init, ConcatW{}, MinusW{}))
+        C06_WIDE2("transform_reduce(first1,last1,first2,init)", C06_ALG(transform_reduce)(lib, f, l, f2, init))
+        C06_WIDE2("transform_reduce(first1,last1,first2,init,reduce,transform)", C06_ALG(transform_reduce)(lib, f, l, f2, init, PlusW{}, MixW{}))
+        if constexpr (!std::is_floating_point_v<T>) {
+            C06_WIDE2("transform_reduce(first1,last1,first2,init,reduce,transform)", C06_ALG(transform_reduce)(lib, f, l, f2, init, MaxW{}, WideMul{}))
+        }
+#undef C06_WIDE2
+    }
+}
+
+template <typename F>
+void job_numeric_wide(mc::Reporter& r, int qL, int tL)
+{
+    Ctx c(r);
+    auto const bd    = bounds(r, qL, 0, tL, 0);
+    auto const pool  = make_ipool(bd.L, {-1, 2, 3});
+    auto const bpool = make_ipool(bd.L, {-1, 2, 1000000000});
+    r.count("sequences", pool.size() + bpool.size());
+    for (auto const& a : pool) {
+        if (c.out_of_time()) { break; }
+        numeric_wide_one<F, long long>(c, a, false);
+        numeric_wide_one<F, double>(c, a, false);
+    }
+    for (auto const& a : bpool) {
+        if (c.out_of_time()) { break; }
+        if (std::find(a.begin(), a.end(), 1000000000) == a.end()) { continue; } // already in the first pool
+        numeric_wide_one<F, long long>(c, a, true);
+        numeric_wide_one<F, double>(c, a, true);
+    }
+    r.sample(cat(F::name, ": every int sequence of length 0..", bd.L, " over {-1,2,3} and over {-1,2,1000000000}: accumulate/reduce/transform_reduce with "
+        "long long init (5000000007, -3) and double init (0.5, -3): plus, max, minus, x*3-y, digit concatenation x*10+y (left folds only)"));
+}
+
+template <typename F1, typename F2>
+void job_numeric_wide_two(mc::Reporter& r, int qL, int tL)
+{
+    Ctx c(r);
+    auto const bd   = bounds(r, qL, 0, tL, 0);
+    auto const pool = make_ipool(bd.L, {-1, 2, 3});
+    r.count("sequences", pool.size() * pool.size());
+    for (auto const& a : pool) {
+        if (c.out_of_time()) { break; }
+        for (auto const& b : pool) {
+            numeric_wide_two<F1, F2, long long>(c, a, b);
+            numeric_wide_two<F1, F2, double>(c, a, b);
+        }
+    }
+    r.sample(cat(F1::name, "/", F2::name, ": every pair of int sequences, len(a) <= len(b) <= ", bd.L,
+        ": inner_product / binary transform_reduce with long long and double init, minus / x*3-y / concatenation as outer or inner operation"));
 }
 
 // ------------------------------------------------------------------------------------------
@@ -386,6 +601,8 @@ int main(int argc, char** argv)
     // sanitizer build: only the raw-pointer jobs (the wrappers check their own ranges; keeps the compile small)
     m.job("numeric/ptr->ptr", both, [](mc::Reporter& r) { job_numeric<PtrF, PtrF>(r, 5, 7); });
     m.job("numeric2/ptr+ptr", both, [](mc::Reporter& r) { job_numeric_two<PtrF, PtrF>(r, 4, 5); });
+    m.job("numeric-wide/ptr", both, [](mc::Reporter& r) { job_numeric_wide<PtrF>(r, 5, 7); });
+    m.job("numeric2-wide/ptr+ptr", both, [](mc::Reporter& r) { job_numeric_wide_two<PtrF, PtrF>(r, 4, 5); });
     m.job("reverse_iterator", both, [](mc::Reporter& r) {
         Ctx c(r);
         int const maxLen = r.thorough() ? 9 : 6;
@@ -400,6 +617,16 @@ int main(int argc, char** argv)
     m.job("numeric/rev->ra", both, [](mc::Reporter& r) { job_numeric<RevF, RaF>(r, 5, 6); });
     m.job("numeric2/ptr+ptr", both, [](mc::Reporter& r) { job_numeric_two<PtrF, PtrF>(r, 4, 5); });
     m.job("numeric2/input+input", both, [](mc::Reporter& r) { job_numeric_two<InF, InF>(r, 4, 5); });
+    m.job("numeric-wide/ptr", both, [](mc::Reporter& r) { job_numeric_wide<PtrF>(r, 5, 8); });
+    m.job("numeric-wide/input", both, [](mc::Reporter& r) { job_numeric_wide<InF>(r, 5, 8); });
+    m.job("numeric-wide/rev", both, [](mc::Reporter& r) { job_numeric_wide<RevF>(r, 5, 7); });
+    m.job("numeric2-wide/ptr+ptr", both, [](mc::Reporter& r) { job_numeric_wide_two<PtrF, PtrF>(r, 4, 5); });
+    m.job("numeric2-wide/input+fwd", both, [](mc::Reporter& r) { job_numeric_wide_two<InF, FwdF>(r, 4, 5); });
+    m.job("sub/numeric/ptr->ptr", both, sub([](mc::Reporter& r) { job_numeric<PtrF, PtrF>(r, 5, 7); }));
+    m.job("sub/numeric/input->output", both, sub([](mc::Reporter& r) { job_numeric<InF, OutF>(r, 5, 7); }));
+    m.job("sub/numeric/fwd->fwd", both, sub([](mc::Reporter& r) { job_numeric<FwdF, FwdF>(r, 5, 7); }));
+    m.job("sub/numeric2/ptr+ptr", both, sub([](mc::Reporter& r) { job_numeric_two<PtrF, PtrF>(r, 4, 5); }));
+    m.job("sub/numeric2/input+input", both, sub([](mc::Reporter& r) { job_numeric_two<InF, InF>(r, 4, 5); }));
 #endif
 #if !defined(MC_PART) || MC_PART == 2
     m.job("iterator-helpers", both, [](mc::Reporter& r) {
